@@ -13,6 +13,8 @@
 import Ladybug.Proofs.C12Lemmas
 import Ladybug.Proofs.C12Files
 import Ladybug.Proofs.C12Obj
+import Ladybug.Model.WeaCli
+import Ladybug.Proofs.C04Listings
 
 open Cal
 
@@ -1267,5 +1269,110 @@ theorem C12_epw_to_wea_annual (leap : Bool) (dni dhi : List Rat) (w : W Rat)
     exact ⟨hm, by omega⟩)
 
 example : (epwToWea false [1, 2] [3, 4] [1]) = .ok [⟨1, 1, 1500, 2, 4⟩] := by decide +kernel
+
+/-! ### Round 4: the translator given an analysis period as TEXT -/
+
+/-- **A period typed as text selects the steps of the period built from numbers.**  For every
+    well-formed analysis period (any dates, any start/end hour – one or two digits, overnight or not –,
+    all 12 timesteps, leap or not) the seven number tokens of its text form, handed to the constructor
+    as strings the way `from_string` does, give back exactly that period; hence `epw_to_wea` applies
+    the selection of the numeric period.  Partial: token level (the character-level `replace` chain of
+    `from_string` is executable in the model and compared with the code by the `cliap` / C04 `from_string`
+    correspondence ops, not proved). -/
+theorem C12_cli_text_period_partial (ap : AP) (hwf : ap.WF) :
+    cliPeriodTokens (ap.reprTokens.map fun (n : Nat) => some (n : Int)) ap.leap = .ok ap ∧
+    cliSelTokens (ap.reprTokens.map fun (n : Nat) => some (n : Int)) ap.leap = .ok (periodSel ap) := by
+  have h := AP.tokens_roundtrip ap hwf
+  unfold cliSelTokens cliPeriodTokens
+  rw [h]
+  exact ⟨rfl, rfl⟩
+
+example : cliPeriodTokens [some 6, some 21, some 9, some 21, some 8, some 16, some 1] false = .ok ⟨6, 21, 8, 9, 21, 16, 1, false⟩ := by
+  decide +kernel
+
+/-- **The hour window of a typed period is decided on the numbers, not on the digits.**  The period
+    the translator builds from the tokens of `ap` is overnight exactly when `end_hour < st_hour` as
+    numbers (`8 .. 16` is a day window although `"8" > "16"` as text; `22 .. 6` is overnight), wraps
+    the year end exactly when the end moment precedes the start moment, and minute `m` is written
+    iff it satisfies the membership predicate of the numeric period (C04). -/
+theorem C12_cli_text_window_partial (ap : AP) (hwf : ap.WF) :
+    ∃ ap', cliPeriodTokens (ap.reprTokens.map fun (n : Nat) => some (n : Int)) ap.leap = .ok ap' ∧
+      ap'.isOvernight = decide (ap.end_hour < ap.st_hour) ∧
+      ap'.isReversed = ap.isReversed ∧
+      ∀ m : Nat, m ∈ ap'.moys ↔ ap.Pred m := by
+  refine ⟨ap, (C12_cli_text_period_partial ap hwf).1, rfl, rfl, fun m => AP.mem_moys ap hwf m⟩
+
+example : (⟨6, 21, 8, 9, 21, 16, 1, false⟩ : AP).WF ∧ (⟨6, 21, 8, 9, 21, 16, 1, false⟩ : AP).isOvernight = false ∧
+    (⟨3, 1, 22, 3, 10, 6, 1, false⟩ : AP).isOvernight = true := by decide
+
+/-- **The selection of a period never depends on the values and is the same for both collections**:
+    the translator's filter is an instance of the alignment theorem – on an aligned pair of
+    collections whose axis holds each selected minute, the direct and the diffuse value written on one
+    line come from the same source position. -/
+theorem C12_cli_period_aligned {α : Type} (ap : AP) (dni dhi : Coll α) (hd : dni.dts = dhi.dts)
+    (h1 : dni.vals.length = dni.dts.length) (h2 : dhi.vals.length = dhi.dts.length) :
+    ∃ idx a b, periodSel ap dni.dts = some idx ∧ filterWea (periodSel ap) dni dhi = some (a, b) ∧ a.dts = b.dts ∧
+      a.vals.length = idx.length ∧ b.vals.length = idx.length ∧
+      ∀ j : Nat, a.vals[j]? = (idx[j]?).bind (fun i => dni.vals[i]?) ∧ b.vals[j]? = (idx[j]?).bind (fun i => dhi.vals[i]?) := by
+  let idx := ap.moys.filterMap fun (m : Nat) => dni.dts.findIdx? (fun (d : DT) => d.moy == m)
+  have hin : ∀ i ∈ idx, i < dni.dts.length := by
+    intro i hi
+    obtain ⟨m, _, hm⟩ := List.mem_filterMap.mp hi
+    exact (List.findIdx?_eq_some_iff_findIdx_eq.mp hm).1
+  obtain ⟨a, b, hf, hab, _, ha, hb, hj⟩ := C12_filters_aligned (periodSel ap) dni dhi hd h1 h2 idx rfl hin
+  exact ⟨idx, a, b, rfl, hf, hab, ha, hb, fun j => ⟨(hj j).2.1, (hj j).2.2⟩⟩
+
+/-! ### Round 4: `get_irradiance_value_for_hoy` indexes with a truncated float product -/
+
+/-- **The value asked for at an hour of the year is the value of step `k` exactly when the product
+    `hoy * timestep` the code forms lies in `[k, k + 1)`**: the index is the truncation of that product. -/
+theorem C12_get_for_hoy_index_iff (k : Nat) (x : Rat) (h0 : 0 ≤ x) :
+    getForHoyIndex x = (k : Int) ↔ ((k : Rat) ≤ x ∧ x < (k : Rat) + 1) := by
+  unfold getForHoyIndex Py.truncRat
+  simp only [h0, if_true]
+  constructor
+  · intro h
+    have h1 := Rat.floor_le x
+    have h2 := Rat.lt_floor_add_one x
+    rw [h] at h1 h2
+    push_cast at h1 h2
+    exact ⟨h1, h2⟩
+  · intro ⟨h1, h2⟩
+    have a1 : ((k : Int) : Rat) ≤ x := by push_cast; exact h1
+    have a2 : x < (((k : Int) + 1 : Int) : Rat) := by push_cast; exact h2
+    have b1 : (k : Int) ≤ x.floor := Rat.le_floor_iff.mpr a1
+    have b2 : x.floor < (k : Int) + 1 := Rat.floor_lt_iff.mpr a2
+    omega
+
+/-- With exact arithmetic every step is found at its own hour of the year (all timesteps, all steps). -/
+theorem C12_get_for_hoy_index_exact_partial (ts : Nat) (hts : ts ∈ Gen.Ap.validTimesteps) (k : Nat) :
+    getForHoyIndex (stepHoy ts k * (ts : Rat)) = (k : Int) := by
+  have hpos : 0 < ts := by
+    simp [Gen.Ap.validTimesteps] at hts
+    omega
+  have hdiv : 60 * k / ts * ts = 60 * k := by
+    rw [ts_div ts hts k]
+    have : 60 / ts * ts = 60 := by
+      simp [Gen.Ap.validTimesteps] at hts
+      rcases hts with h | h | h | h | h | h | h | h | h | h | h | h <;> subst h <;> rfl
+    rw [Nat.mul_assoc, this, Nat.mul_comm]
+  have hx : stepHoy ts k * (ts : Rat) = ((k : Int) : Rat) := by
+    unfold stepHoy
+    have h60 : ((60 * k / ts * ts : Nat) : Rat) = ((60 * k : Nat) : Rat) := by rw [hdiv]
+    push_cast at h60 ⊢
+    have : ((60 * k / ts : Nat) : Rat) * (ts : Rat) = 60 * (k : Rat) := h60
+    linarith [this]
+  unfold getForHoyIndex
+  rw [hx]
+  exact trunc_intCast _
+
+/-- **Refuted on the floats the code works with** (known finding C12-get-for-hoy-float-index): step
+    131069 of a 4-minute annual Wea (30 Dec 01:56) has hour of the year 8737.933333333332; the IEEE
+    product with 15 is 9006993096310783 / 2^36 = 131068.99999999999…, whose truncation is the PREVIOUS
+    step, although the exact product is the step itself. -/
+theorem C12_get_for_hoy_index_counterexample :
+    getForHoyIndex (9006993096310783 / 68719476736) = 131068 ∧
+    getForHoyIndex (stepHoy 15 131069 * 15) = 131069 := by
+  decide +kernel
 
 end Wea
